@@ -75,6 +75,38 @@ theorem mapSt_forall {α β : Type} (f : List Str → α → Except UErr (β × 
         · subst e; exact hf reg x _ reg1 h1
         · exact ih reg1 ys2 reg2 h2 y' hm
 
+theorem mapStKvs_noNull {α : Type} (f : List Str → α → Except UErr (PV × List Str))
+    (hf : ∀ reg x y reg', f reg x = .ok (y, reg') → y.noNullKeys = true) :
+    ∀ (kvs : List (Str × α)) (reg : List Str) (ps : List (Str × PV)) (reg' : List Str),
+      mapStKvs f reg kvs = .ok (ps, reg') → PV.noNullKeysKvs ps = true := by
+  intro kvs
+  induction kvs with
+  | nil =>
+    intro reg ps reg' h
+    simp only [mapStKvs, Except.ok.injEq, Prod.mk.injEq] at h
+    rw [← h.1]; rfl
+  | cons kv rest ih =>
+    obtain ⟨k, x⟩ := kv
+    intro reg ps reg' h
+    simp only [mapStKvs] at h
+    cases h1 : f reg x with
+    | error e => simp [h1] at h
+    | ok r =>
+      obtain ⟨p, reg1⟩ := r
+      simp only [h1] at h
+      cases h2 : mapStKvs f reg1 rest with
+      | error e => simp [h2] at h
+      | ok r2 =>
+        obtain ⟨ps2, reg2⟩ := r2
+        simp only [h2, Except.ok.injEq, Prod.mk.injEq] at h
+        obtain ⟨rfl, _⟩ := h
+        have hrest := ih reg1 ps2 reg2 h2
+        cases hp : p.isNull with
+        | true => simpa using hrest
+        | false =>
+          simp only [Bool.false_eq_true, if_false, PV.noNullKeysKvs, Bool.and_eq_true, Bool.not_eq_true']
+          exact ⟨⟨hp, hf reg x p reg1 h1⟩, hrest⟩
+
 /-- Every dict in the value `_serialize_with_tracking` returns is free of `None` values. -/
 theorem serF_track_noNull (c : Codecs) : ∀ (n : Nat) (heap : Heap) (decls : Decls) (visited : List Nat)
     (reg : List Str) (v : HVal) (out : PV) (reg' : List Str),
@@ -145,9 +177,14 @@ theorem serF_track_noNull (c : Codecs) : ∀ (n : Nat) (heap : Heap) (decls : De
                 (fun r x y r' hxy => ih heap decls _ r x y r' hxy) items reg ps _ hm
           | dict kvs =>
             simp only [hg] at h
-            split at h
-            · cases h
-            · cases h; exact PV.removeNone_noNull _
+            generalize hm : mapStKvs (fun r x => serF c n heap decls (id :: visited) r x) reg kvs = r at h
+            cases r with
+            | error e => cases h
+            | ok pr =>
+              obtain ⟨ps, reg1⟩ := pr
+              cases h
+              simp only [PV.noNullKeys]
+              exact mapStKvs_noNull _ (fun r x y r' hxy => ih heap decls _ r x y r' hxy) kvs reg ps _ hm
           | inst cls attrs =>
             simp only [hg] at h
             split at h
